@@ -84,7 +84,7 @@ CHECKS = {
             "DESIGN.md 6/C14"),
     "C17": ("exploration",
             "systematic enumeration of input families on a ladder of sizes with a deterministic work counter",
-            "All 961 input families of period 1 and 2 over 31 syntactic wrappers (including chains that end in two parenthesised operands, and groups of several members whose body or first definition is a parenthesised group), each in 8 variants (well formed, truncated four ways, wrong token planted at three places), are run through the real tokenize+parse at n = 1, 2, 4, ... 512 (quick) / 4096 (thorough) nested repetitions on a 2 GiB stack; the work measure is the number of heap allocations (deterministic), backed by a wall-clock cap per rung. A second sweep runs 558 families of definition groups whose members mention each other by offset sets within {-2,-1,+1,+2,+3} (all lambdas / a non-value head then lambdas / all non-values; complete, truncated, wrong token) up to 256/1024 definitions under the same cap and envelope. A finite ladder gives evidence of the growth law, not a proof for all n; exponential or super-quadratic behaviour shows up within the first rungs.",
+            "All 1681 input families of period 1 and 2 over 41 syntactic wrappers (including chains that end in two parenthesised operands, and groups of several members whose body or first definition is a parenthesised group), each in 8 variants (well formed, truncated four ways, wrong token planted at three places), are run through the real tokenize+parse at n = 1, 2, 4, ... 512 (quick) / 4096 (thorough) nested repetitions on a 2 GiB stack; the work measure is the number of heap allocations (deterministic), backed by a wall-clock cap per rung. A second sweep runs 558 families of definition groups whose members mention each other by offset sets within {-2,-1,+1,+2,+3} (all lambdas / a non-value head then lambdas / all non-values; complete, truncated, wrong token) up to 256/1024 definitions under the same cap and envelope. A finite ladder gives evidence of the growth law, not a proof for all n; exponential or super-quadratic behaviour shows up within the first rungs.",
             "Trusted: heap allocations as a proxy for parser work; thresholds (40 T^2 + 2e5 absolute, factor 6 per doubling for well-formed input) are 20x / 3x above the values measured on the unchanged tree.",
             "DESIGN.md 6/C17"),
     "C07": ("exploration",
